@@ -78,11 +78,9 @@ type noOpCompressor struct {
 }
 
 func (c *noOpCompressor) Reset(writer io.Writer) {
-	wc, ok := writer.(io.WriteCloser)
-	if !ok {
-		wc = &noOpCloser{writer}
-	}
-	c.WriteCloser = wc
+	// Closing a compressor finishes the compressed stream; it must never
+	// close the destination, even if that happens to be an io.WriteCloser.
+	c.WriteCloser = &noOpCloser{writer}
 }
 
 type noOpDecompressor struct {
